@@ -2,6 +2,7 @@
 driver (z3 4.8.12 binary primary, z3-new / cvc5 as cross-check) and model parsing."""
 from __future__ import annotations
 
+import math
 import os
 import re
 import shutil
@@ -222,7 +223,7 @@ class Query:
                     lines.append(f"(get-value ((+ 0.0 {x})))")
         return "\n".join(lines) + "\n"
 
-    def check(self, timeout=20, solver="z3", axioms=True, enclosures=None, keep=None, cegar=4):
+    def check(self, timeout=20, solver="z3", axioms=True, enclosures=None, keep=None, cegar=8):
         """Solve.  A sat model is only as good as the uninterpreted functions' values in it:
         when the model assigns exp/log/... a value that the real function does not take at
         that argument, a sound enclosure lemma around that point is added and the query is
@@ -243,6 +244,7 @@ class Query:
                 return r
             lemmas += new
         r.status = "unknown"
+        r.candidate = True      # r.model is the last (UF-inexact) model: callers may replay it on the real code
         r.raw = "cegar rounds exhausted: every model used impossible values of an uninterpreted function"
         STATS["sat"] -= 1; STATS["unknown"] += 1
         r.seconds = total
@@ -268,6 +270,13 @@ class Query:
                     continue
                 if abs(fv - tv) <= 1e-7 * (1 + abs(fv)):
                     continue
+                if fn == "exp" and t not in getattr(self, "_gridded", set()):
+                    # first spurious value for this application: pin exp within a factor e everywhere
+                    self._gridded = getattr(self, "_gridded", set()) | {t}
+                    for k in range(-46, 21):
+                        ek = math.exp(k)
+                        out.append(f"(=> (<= {x} {_num(Fraction(k))}) (<= {t} {_num(Fraction(ek * (1 + 1e-12)))}))")
+                        out.append(f"(=> (>= {x} {_num(Fraction(k))}) (>= {t} {_num(Fraction(ek * (1 - 1e-12)))}))")
                 d = 0.02 * (1 + abs(xv))
                 lo_x, hi_x = xv - d, xv + d
                 if fn == "log": lo_x = max(lo_x, xv / 2)
@@ -278,16 +287,24 @@ class Query:
                 except (OverflowError, ValueError):
                     continue
                 w = lambda v, up: v + (abs(v) * 1e-12 + 1e-300) * (1 if up else -1)
-                Q = lambda v: _num(Fraction(v))
+                Q = lambda v: _num(Fraction(repr(float(v))))      # decimal reading, as constants are emitted
                 out.append(f"(=> (and (>= {x} {Q(lo_x)}) (<= {x} {Q(hi_x)})) (and (>= {t} {Q(w(flo, False))}) (<= {t} {Q(w(fhi, True))})))")
+                out.append(f"(=> (= {x} {Q(xv)}) (and (>= {t} {Q(w(fmid, False))}) (<= {t} {Q(w(fmid, True))})))")
                 out.append(f"(=> (<= {x} {Q(xv)}) (<= {t} {Q(w(fmid, True))}))")
                 out.append(f"(=> (>= {x} {Q(xv)}) (>= {t} {Q(w(fmid, False))}))")
         return out
 
 
 class Result:
+    candidate = False
+
     def __init__(self, status, model, seconds, raw="", solver="z3", nbytes=0):
         self.status, self.model, self.seconds, self.raw, self.solver, self.nbytes = status, model, seconds, raw, solver, nbytes
+
+    @property
+    def has_witness(self):
+        """a model worth replaying on the real code: sat, or the candidate left by an exhausted CEGAR loop"""
+        return bool(self.model) and (self.status == "sat" or self.candidate)
 
     def __repr__(self):
         return f"<{self.status} {self.seconds:.2f}s {self.solver}>"
